@@ -242,12 +242,19 @@ func (x *Exec) callFunc(fn *types.Func, recv *Value, call *ast.CallExpr, st *Sta
 	x.staticRecv = nil
 	// contracts specialised on the static (named, non-interface) type of an argument that is
 	// passed to an interface parameter: key "pkg.Func@argpkg.ArgType"
-	if sig := fn.Type().(*types.Signature); recv == nil && len(call.Args) == sig.Params().Len() && !sig.Variadic() {
+	if sig := fn.Type().(*types.Signature); len(call.Args) == sig.Params().Len() && (!sig.Variadic() || (len(call.Args) == 1 && !call.Ellipsis.IsValid())) {
 		for i, a := range call.Args {
-			if _, isIface := types.Unalias(sig.Params().At(i).Type()).Underlying().(*types.Interface); !isIface {
+			pt := sig.Params().At(i).Type()
+			if sig.Variadic() {
+				pt = pt.(*types.Slice).Elem()
+			}
+			if _, isIface := types.Unalias(pt).Underlying().(*types.Interface); !isIface {
 				continue
 			}
 			at := x.typeOf(a)
+			if pt, isPtr := types.Unalias(at).(*types.Pointer); isPtr {
+				at = pt.Elem() // pointer to a named type specialises on the pointee
+			}
 			if n, ok := types.Unalias(at).(*types.Named); ok {
 				if _, argIface := n.Underlying().(*types.Interface); argIface {
 					continue
@@ -262,7 +269,7 @@ func (x *Exec) callFunc(fn *types.Func, recv *Value, call *ast.CallExpr, st *Sta
 						}
 						args = append(args, v)
 					}
-					return x.applyContract(c, fn, nil, args, st, call)
+					return x.applyContract(c, fn, recv, args, st, call)
 				}
 			}
 		}
@@ -516,6 +523,21 @@ func (x *Exec) applyContract(c *Contract, fn *types.Func, recv *Value, args []*V
 		x.oblige(st, "requires", shortKey(c.Key)+"/"+clauseName(r, i), t, call)
 		x.assume(st, t)
 	}
+	// results declared fresh are allocated from the caller's frontier, so that their
+	// freshness is syntactic (needed for loop frames)
+	freshRes := false
+	for _, e := range c.Ensures {
+		if strings.Contains(e.Src, "fresh(result)") {
+			freshRes = true
+		}
+	}
+	var freshRef *Term
+	if freshRes && sig.Results().Len() > 0 && isRefLike(sig.Results().At(0).Type()) {
+		freshRef = x.alloc(st)
+	}
+	if !c.NoAlloc {
+		x.bumpAlloc(st)
+	}
 	// frame. A location L with a postcondition of the shape "L == E" (E over old values) is
 	// assigned E directly instead of being havocked and constrained: same meaning, smaller terms.
 	direct := map[string]*Value{}
@@ -544,25 +566,27 @@ func (x *Exec) applyContract(c *Contract, fn *types.Func, recv *Value, args []*V
 		}
 		x.havocSpecLoc(m, sc, st, c)
 	}
-	// results declared fresh are allocated from the caller's frontier, so that their
-	// freshness is syntactic (needed for loop frames)
-	freshRes := false
-	for _, e := range c.Ensures {
-		if strings.Contains(e.Src, "fresh(result)") {
-			freshRes = true
-		}
-	}
-	var freshRef *Term
-	if freshRes && sig.Results().Len() > 0 && isRefLike(sig.Results().At(0).Type()) {
-		freshRef = x.alloc(st)
-	}
-	if !c.NoAlloc {
-		x.bumpAlloc(st)
-	}
 	// a postcondition "result == <parameter>" binds the result to that argument directly
 	var aliasRes *Value
-	for _, e := range c.Ensures {
-		if be, ok := parseSpec(e).(*ast.BinaryExpr); ok && be.Op == token.EQL {
+	var findAlias func(e ast.Expr)
+	findAlias = func(e ast.Expr) {
+		for {
+			p, ok := e.(*ast.ParenExpr)
+			if !ok {
+				break
+			}
+			e = p.X
+		}
+		be, ok := e.(*ast.BinaryExpr)
+		if !ok {
+			return
+		}
+		if be.Op == token.LAND {
+			findAlias(be.X)
+			findAlias(be.Y)
+			return
+		}
+		if be.Op == token.EQL {
 			if l, ok := be.X.(*ast.Ident); ok && l.Name == "result" {
 				if r, ok := be.Y.(*ast.Ident); ok {
 					if av, ok := sc.names[r.Name]; ok && (av.P != nil || av.Tm != nil) {
@@ -571,6 +595,9 @@ func (x *Exec) applyContract(c *Contract, fn *types.Func, recv *Value, args []*V
 				}
 			}
 		}
+	}
+	for _, e := range c.Ensures {
+		findAlias(parseSpec(e))
 	}
 	// results
 	var results []*Value
@@ -643,6 +670,7 @@ type specLoc struct {
 	mapT  *types.Map
 	ghost *Sort
 	all   bool
+	whole bool
 }
 
 func (l *specLoc) havoc(x *Exec, st *State) {
@@ -652,6 +680,8 @@ func (l *specLoc) havoc(x *Exec, st *State) {
 			nm := x.fresh("hv."+k, srt)
 			st.hset(k, nm, nil)
 		}
+	case l.ghost != nil && l.whole:
+		st.hset(l.key, x.fresh("hv."+l.key, ArrS(IntS, l.ghost)), nil)
 	case l.ghost != nil:
 		m := st.hget(l.key, ArrS(IntS, l.ghost))
 		st.hset(l.key, x.vc.define("h", Store(m, l.ref, x.fresh("gv", l.ghost))), l.ref)
@@ -673,6 +703,8 @@ func (l *specLoc) keysAndRefs(x *Exec) [][2]any {
 	var out [][2]any
 	switch {
 	case l.all:
+		out = append(out, [2]any{"*", nil})
+	case l.ghost != nil && l.whole:
 		out = append(out, [2]any{"*", nil})
 	case l.ghost != nil:
 		out = append(out, [2]any{l.key, l.ref})
